@@ -151,11 +151,11 @@ def axes_subset(ndim, allow_none=True, nonempty=True, negative=True):
     return _s()
 
 
-LAYOUTS = ("c", "c", "f", "strided", "revstride")
+LAYOUTS = ("c", "c", "f", "strided", "revstride", "ro")
 
 
 def relayout(a, kind):
-    """Same values, different memory layout (C / Fortran order / every-other-element view / negative stride)."""
+    """Same values, different memory layout (C / Fortran order / every-other-element view / negative stride / read-only)."""
     a = np.asarray(a)
     if kind == "f" and a.ndim >= 2:
         return np.asfortranarray(a)
@@ -165,4 +165,9 @@ def relayout(a, kind):
         return big[..., ::2]
     if kind == "revstride" and a.ndim >= 1:
         return np.ascontiguousarray(a[::-1])[::-1]
+    if kind == "ro":
+        # a read-only array (e.g. a memory-mapped file, a broadcast view): valid wherever inputs are not modified
+        b = np.array(a, copy=True, order="C")
+        b.flags.writeable = False
+        return b
     return np.ascontiguousarray(a)
